@@ -17,7 +17,8 @@ def gen_areas(ch, max_areas=8):
     for i in range(n):
         gap = ch.pick([1, 16, 0x100, 0x10000, 3], "hex.gap") if i else 0
         cursor += gap
-        ln = ch.pick([1, 16, 100, 255, 256, 1000, 0x1234], "hex.len")
+        ln = ch.pick([1, 16, 100, 255, 256, 1000, 0x1234, 4096, 8192, 0x10000, 4095, 4097, 64],
+                     "hex.len")
         data = ch.bytes(ln, "hex.data") if ln <= 64 else \
             hashlib.shake_256(ch.bytes(8, "hex.dataseed")).digest(ln)
         areas.append((cursor & 0xFFFFFFFF, data))
